@@ -134,6 +134,11 @@ def check(case):
         if not (np.all(np.isfinite(z)) and np.all(np.isfinite(dz)) and np.all(dz > 0)):
             out.cls('degenerate-altitude')
             return None
+        if zb[-1] > 1e3 * Rp:
+            # a live update (hotter, or a larger radius at the same mass) can unbind the atmosphere: altitudes of 1e30 planet
+            # radii, where shell radii differ by more than float64 resolves -- no geometry left to judge (same rule as C11)
+            out.cls('unbound-atmosphere')
+            return None
 
         # --- geometry -------------------------------------------------------------
         path = [np.asarray(p, dtype=float) for p in m.path_length]
